@@ -42,6 +42,9 @@ _BOPS_2D = ['iloc', 'loc_cols', 'add', 'mul', 'eq', 'neg', 'apply_head', 'apply_
 _BOPS_1D = ['getitem', 'sum', 'mean', 'max', 'count', 'loc_min']  # reduce a member to a Series: only as the last operation of a chain
 
 
+TECHNIQUE = 'runtime monitoring: differential oracle (Quilt vs the concatenated Frame, Batch chain vs the per-frame results concatenated) with a store-read log showing that only the needed members were loaded'
+
+
 def probes(ctx):
     m0 = {'rows': ['m0', 'm1'], 'cols': ['o0', 'o1'], 'dtypes': ['int64', 'int64'], 'cells': [[1, 2], [3, 4]], 'lay': 0}
     m1 = {'rows': ['m2', 'm3'], 'cols': ['o0', 'o1'], 'dtypes': ['int64', 'int64'], 'cells': [[5, 6], [7, 8]], 'lay': 0}
